@@ -133,6 +133,7 @@ T_LIMIT = """
 T_SCHEDULES = """
 def _validate_schedules(self, schedules, objdict=None):
     for i, schedule in enumerate(schedules):
+        j, item = (None, schedule)
         try:
             for j, item in enumerate(schedule):
                 self._validate_schedule_item(item, objdict=objdict)
@@ -298,10 +299,12 @@ def extract():
     for cls, fn, short in TOMO:
         t = _parse(STD + fn)
         src = _norm_src(_func(t, cls, "_validate_schedules"))
-        cond = _one(r"\n        if ((?:schedule\[\d+\]\[0\] != '\w*'(?: or )?)+):", src, f"{cls} positional tests")
+        lentest, cond = _one(r"\n        if (len\(schedule\) != \d+ or )?((?:\(?schedule\[\d+\]\[0\] != '\w*'\)?(?: or )?)+):", src, f"{cls} positional tests")
+        slen = int(re.search(r"\d+", lentest).group(0)) if lentest else None
         pos = [(int(p), k) for p, k in re.findall(r"schedule\[(\d+)\]\[0\] != '(\w*)'", cond)]
         zero, zval = _one(r"if schedule\[(\d+)\]\[1\] != (-?\d+):", src, f"{cls} fixed index")
-        _match(src, T_TOMO_VALIDATE % dict(pos=" or ".join(f"schedule[{p}][0] != {k!r}" for p, k in pos),
+        _match(src, T_TOMO_VALIDATE % dict(pos=(f"len(schedule) != {slen} or " if slen is not None else "") +
+                                           " or ".join(f"schedule[{p}][0] != {k!r}" for p, k in pos),
                                            zero=int(zero), zval=int(zval)), f"{cls}._validate_schedules")
         if int(zval) != 0:
             raise Untranslatable(f"{cls}: fixed index value {zval} is not 0")
@@ -331,7 +334,7 @@ def extract():
         mod = ast.Module(body=head, type_ignores=[])
         ast.fix_missing_locations(mod)
         _match(ast.unparse(mod), T_TOMO_HEAD % dict(expand=EXPAND[cls], kwargs=", ".join(kw)), f"{cls}.__init__ (schedule handling)")
-        tb[short] = dict(pos=pos, zero=int(zero),
+        tb[short] = dict(pos=pos, zero=int(zero), len=slen,
                          lists=[LIST_CODE[lists.get(k, "empty")] for k in ("states", "povms", "gates", "mprocesses")])
     return tb
 
@@ -353,13 +356,15 @@ def render(tb):
            f"def lastKinds : List String := {_ls(tb['lastKinds'])}",
            "def limits : List (String × Nat) := [" + ", ".join(f'("{k}", {n})' for k, n in tb["limits"]) + "]",
            f"def supportedStrs : List String := {_ls(tb['supportedStrs'])}",
-           "/-! per tomography class: positional kind tests `schedule[p][0] != k`, the position whose index must be 0,",
+           "/-! per tomography class: positional kind tests `schedule[p][0] != k`, the position whose index must be 0, the optional",
+           "leading length test `len(schedule) != n` (none = the class has no such test),",
            "and the lists handed to `Experiment` (states, povms, gates, mprocesses): 0 = `[]`/absent, 1 = `[None]`,",
            "2 = the constructor's parameter of the same name -/"]
     for _, _, short in TOMO:
         t = tb[short]
         out.append(f"def {short}Pos : List (Nat × String) := [" + ", ".join(f'({p}, "{k}")' for p, k in t["pos"]) + "]")
         out.append(f"def {short}Zero : Nat := {t['zero']}")
+        out.append(f"def {short}Len : Option Nat := " + ("none" if t["len"] is None else f"some {t['len']}"))
         out.append(f"def {short}Lists : List Nat := [" + ", ".join(str(x) for x in t["lists"]) + "]")
     out.append("end QGen.C20")
     return "\n".join(out) + "\n"
